@@ -2,9 +2,10 @@
 //!
 //! Requires the `time_trigger` feature.
 
-#[cfg(test)]
-use chrono::NaiveDateTime;
-use chrono::{DateTime, Datelike, Duration, Local, TimeZone, Timelike};
+use chrono::{
+    DateTime, Datelike, Duration, Local, LocalResult, NaiveDate, NaiveDateTime, NaiveTime,
+    TimeZone, Timelike,
+};
 #[cfg(test)]
 use mock_instant::{SystemTime, UNIX_EPOCH};
 use rand::Rng;
@@ -227,71 +228,92 @@ impl TimeTrigger {
         interval: TimeTriggerInterval,
         modulate: bool,
     ) -> DateTime<Local> {
-        let year = current.year();
-        if let TimeTriggerInterval::Year(n) = interval {
-            let n = n as i32;
-            let increment = if modulate { n - year % n } else { n };
-            let year_new = year + increment;
-            return Local.with_ymd_and_hms(year_new, 1, 1, 0, 0, 0).unwrap();
-        }
+        // The boundary is computed on the local wall clock and mapped back to an
+        // instant only at the end, so a daylight-saving transition can neither
+        // make the computation panic nor yield a time that is not in the future.
+        let now = current.naive_local();
+        let date = now.date();
+        let year = date.year();
+        let next = match interval {
+            TimeTriggerInterval::Year(n) => {
+                let n = n as i32;
+                let increment = if modulate { n - year % n } else { n };
+                let year_new = year + increment;
+                NaiveDate::from_ymd_opt(year_new, 1, 1)
+                    .expect("year out of range")
+                    .and_time(NaiveTime::MIN)
+            }
+            TimeTriggerInterval::Month(n) => {
+                let month0 = date.month0();
+                let n = n as u32;
+                let increment = if modulate { n - month0 % n } else { n };
+                let num_months = (year as u32) * 12 + month0;
+                let num_months_new = num_months + increment;
+                let year_new = (num_months_new / 12) as i32;
+                let month_new = (num_months_new) % 12 + 1;
+                NaiveDate::from_ymd_opt(year_new, month_new, 1)
+                    .expect("year out of range")
+                    .and_time(NaiveTime::MIN)
+            }
+            TimeTriggerInterval::Week(n) => {
+                let week0 = date.iso_week().week0() as i64;
+                let weekday = date.weekday().num_days_from_monday() as i64; // Monday is the first day of the week
+                let time = date.and_time(NaiveTime::MIN);
+                let increment = if modulate { n - week0 % n } else { n };
+                time + Duration::weeks(increment) - Duration::days(weekday)
+            }
+            TimeTriggerInterval::Day(n) => {
+                let ordinal0 = date.ordinal0() as i64;
+                let time = date.and_time(NaiveTime::MIN);
+                let increment = if modulate { n - ordinal0 % n } else { n };
+                time + Duration::days(increment)
+            }
+            TimeTriggerInterval::Hour(n) => {
+                let hour = now.hour();
+                let time = date.and_time(NaiveTime::MIN) + Duration::hours(hour as i64);
+                let increment = if modulate { n - (hour as i64) % n } else { n };
+                time + Duration::hours(increment)
+            }
+            TimeTriggerInterval::Minute(n) => {
+                let min = now.minute();
+                let time = date.and_time(NaiveTime::MIN)
+                    + Duration::hours(now.hour() as i64)
+                    + Duration::minutes(min as i64);
+                let increment = if modulate { n - (min as i64) % n } else { n };
+                time + Duration::minutes(increment)
+            }
+            TimeTriggerInterval::Second(n) => {
+                let sec = now.second();
+                let time = date.and_time(NaiveTime::MIN)
+                    + Duration::hours(now.hour() as i64)
+                    + Duration::minutes(now.minute() as i64)
+                    + Duration::seconds(sec as i64);
+                let increment = if modulate { n - (sec as i64) % n } else { n };
+                time + Duration::seconds(increment)
+            }
+        };
+        TimeTrigger::resolve_local(next, current)
+    }
 
-        if let TimeTriggerInterval::Month(n) = interval {
-            let month0 = current.month0();
-            let n = n as u32;
-            let increment = if modulate { n - month0 % n } else { n };
-            let num_months = (year as u32) * 12 + month0;
-            let num_months_new = num_months + increment;
-            let year_new = (num_months_new / 12) as i32;
-            let month_new = (num_months_new) % 12 + 1;
-            return Local
-                .with_ymd_and_hms(year_new, month_new, 1, 0, 0, 0)
-                .unwrap();
+    /// Maps a local wall-clock time lying after `current` to an instant strictly
+    /// after `current`, whatever the time zone does in between.
+    fn resolve_local(next: NaiveDateTime, current: DateTime<Local>) -> DateTime<Local> {
+        match Local.from_local_datetime(&next) {
+            LocalResult::Single(time) => time,
+            // The wall-clock time is repeated when daylight saving ends: take the
+            // first occurrence that is still ahead.
+            LocalResult::Ambiguous(a, b) => {
+                let (first, second) = if a <= b { (a, b) } else { (b, a) };
+                if first > current {
+                    first
+                } else {
+                    second
+                }
+            }
+            // The wall-clock time is skipped when daylight saving starts: advance
+            // by the wall-clock distance instead.
+            LocalResult::None => current + (next - current.naive_local()),
         }
-
-        let month = current.month();
-        let day = current.day();
-        if let TimeTriggerInterval::Week(n) = interval {
-            let week0 = current.iso_week().week0() as i64;
-            let weekday = current.weekday().num_days_from_monday() as i64; // Monday is the first day of the week
-            let time = Local.with_ymd_and_hms(year, month, day, 0, 0, 0).unwrap();
-            let increment = if modulate { n - week0 % n } else { n };
-            return time + Duration::weeks(increment) - Duration::days(weekday);
-        }
-
-        if let TimeTriggerInterval::Day(n) = interval {
-            let ordinal0 = current.ordinal0() as i64;
-            let time = Local.with_ymd_and_hms(year, month, day, 0, 0, 0).unwrap();
-            let increment = if modulate { n - ordinal0 % n } else { n };
-            return time + Duration::days(increment);
-        }
-
-        let hour = current.hour();
-        if let TimeTriggerInterval::Hour(n) = interval {
-            let time = Local
-                .with_ymd_and_hms(year, month, day, hour, 0, 0)
-                .unwrap();
-            let increment = if modulate { n - (hour as i64) % n } else { n };
-            return time + Duration::hours(increment);
-        }
-
-        let min = current.minute();
-        if let TimeTriggerInterval::Minute(n) = interval {
-            let time = Local
-                .with_ymd_and_hms(year, month, day, hour, min, 0)
-                .unwrap();
-            let increment = if modulate { n - (min as i64) % n } else { n };
-            return time + Duration::minutes(increment);
-        }
-
-        let sec = current.second();
-        if let TimeTriggerInterval::Second(n) = interval {
-            let time = Local
-                .with_ymd_and_hms(year, month, day, hour, min, sec)
-                .unwrap();
-            let increment = if modulate { n - (sec as i64) % n } else { n };
-            return time + Duration::seconds(increment);
-        }
-        panic!("Should not reach here!");
     }
 }
 
